@@ -343,6 +343,9 @@ theorem len_ftapeF : ∀ (fs : FFields) (b : Nat) (a : Bytes), (ftapeF fs b a).l
     simp only [ftapeF, fcntF, List.length_append, List.length_cons, List.length_nil, len_ftapeV v, len_ftapeF inner,
       len_ftapeF rest]
     try omega
+  | .paramHdr _ _ _ _ _ _ body rest, b, a => by
+    simp only [ftapeF, fcntF, List.length_append, List.length_cons, List.length_nil, len_ftapeV body, len_ftapeF rest]
+    try omega
 theorem len_ftapeVs : ∀ (vs : FVals) (b : Nat) (a : Bytes), (ftapeVs vs b a).length = fcntVs vs
   | .nil, _, _ => by simp [ftapeVs, fcntVs]
   | .cons v rest, b, a => by
@@ -438,6 +441,10 @@ theorem first_head {first : FFirst} {a : Bytes} (hv : FValidFirst first a) {g0 :
       simp only [frenderFirst, frenderF, paramOpen, List.append_assoc, List.cons_append]
       exact hbr _ _ hv.1
     | paramObj g0' isU name g1 k g2 o v inner gc rest =>
+      simp only [FValidF] at hv
+      simp only [frenderFirst, frenderF, paramOpen, List.append_assoc, List.cons_append]
+      exact hbr _ _ hv.1
+    | paramHdr g0' isU name g1 val g2 body rest =>
       simp only [FValidF] at hv
       simp only [frenderFirst, frenderF, paramOpen, List.append_assoc, List.cons_append]
       exact hbr _ _ hv.1
@@ -953,6 +960,14 @@ theorem frun_First (n : Nat) : ∀ (first : FFirst) (after : Bytes) (fuel : Nat)
         rw [hfuel]
         simp only [frenderF, paramOpen, List.append_assoc, List.cons_append]
         simp only [run, step_parseopen_param T P _ hvf.1]
+      | paramHdr g0' isU name g1 val g2 body rest =>
+        simp only [FValidF] at hvf
+        have hfuel : fuel + fstepsF (.paramHdr g0' isU name g1 val g2 body rest) =
+            (fuel + fstepsF rest + fstepsV body) + 1 := by
+          simp only [fstepsF]; omega
+        rw [hfuel]
+        simp only [frenderF, paramOpen, List.append_assoc, List.cons_append]
+        simp only [run, step_parseopen_param T P _ hvf.1]
       | nil => simp [FFields.startsSpecial] at hs
       | cons _ _ _ _ _ _ => simp [FFields.startsSpecial] at hs
       | consImp _ _ _ _ => simp [FFields.startsSpecial] at hs
@@ -1158,6 +1173,59 @@ theorem frun_F (n : Nat) : ∀ (fs : FFields) (after : Bytes) (fuel : Nat) (st :
       List.append_assoc, List.cons_append, List.nil_append]
     simp only [show (2 : Nat) = 1 + 1 from rfl, show (3 : Nat) = 1 + 1 + 1 from rfl]
     simp only [Nat.add_assoc, Nat.add_comm, Nat.add_left_comm, Nat.zero_add]
+  | .paramHdr g0 isU name g1 val g2 body rest, after, fuel, st, hv, hst, hc => by
+    simp only [FValidF] at hv
+    obtain ⟨h0, h1, h2, hn, hval, hq, hsb, hbc, hvb, hvr⟩ := hv
+    have hsteps : 1 ≤ fstepsV body := by
+      cases body <;> simp [FVal.isContainer] at hbc <;> simp [fstepsV] <;> omega
+    have hfuel : fuel + fstepsF (.paramHdr g0 isU name g1 val g2 body rest) =
+        (((fuel + fstepsF rest) + fstepsV body - 1) + 1) + 1 := by
+      simp only [fstepsF]; omega
+    rw [hfuel]
+    simp only [frenderF, paramOpen, List.append_assoc, List.cons_append, List.nil_append]
+    have hstep := step_key_param (n := n) (isU := isU) hst h0 hn
+      (g1 ++ (val.text ++ (g2 ++ 93 :: (frenderV body ++ (frenderF rest ++ after)))))
+    rw [pdAfter_val _ _ _ _ _ _ h1 h2 hval hq _ hsb] at hstep
+    rw [run_cont hstep]
+    -- Key sees the `{`: the parameter value becomes the header
+    obtain ⟨gb, X, hrb, hgb, c2, r2, hsk, hc2⟩ := fcontainer_head hbc hvb (frenderF rest ++ after)
+    rw [hrb]
+    rw [run_cont (step_key_header
+      (T := st.tape ++ [paramTok isU ⟨(name ++ 93 :: (g1 ++ (val.text ++ (g2 ++ 93 :: (gb ++ 123 :: X))))).length, name⟩])
+      (sl := ⟨(val.text ++ (g2 ++ 93 :: (gb ++ 123 :: X))).length, val.bytes⟩) rfl (by simp) hgb hsk hc2)]
+    rw [← run_skip hsk]
+    have hback := run_cont (n := n) (m := fuel + fstepsF rest + fstepsV body - 1)
+      (step_open (g := gb) (X := X)
+        (st := St.mk .objectValue st.mixed st.parent
+          (st.tape ++ [paramTok isU ⟨(name ++ 93 :: (g1 ++ (val.text ++ (g2 ++ 93 :: (gb ++ 123 :: X))))).length, name⟩] ++
+            [.header ⟨(val.text ++ (g2 ++ 93 :: (gb ++ 123 :: X))).length, val.bytes⟩])) (.inl rfl) hgb)
+    simp only [List.append_assoc, List.cons_append, List.nil_append] at hback ⊢
+    rw [← hback, ← hrb,
+      show fuel + fstepsF rest + fstepsV body - 1 + 1 = (fuel + fstepsF rest) + fstepsV body by omega]
+    have hctx := hc.after_plain hst
+      (paramTok isU ⟨(name ++ 93 :: (g1 ++ (val.text ++ (g2 ++ 93 :: (frenderV body ++ (frenderF rest ++ after)))))).length, name⟩)
+      (paramTok_plain _ _)
+      [.header ⟨(val.text ++ (g2 ++ 93 :: (frenderV body ++ (frenderF rest ++ after)))).length, val.bytes⟩]
+      .objectValue rfl
+    rw [frun_V n body (frenderF rest ++ after) _ _ false hvb (.inl rfl) hctx.toC (by simp)]
+    simp only [ret_ov, List.append_assoc, List.cons_append, List.nil_append, Bool.false_eq_true, if_false]
+    have hctx2 := hc.after_plain hst
+      (paramTok isU ⟨(name ++ 93 :: (g1 ++ (val.text ++ (g2 ++ 93 :: (frenderV body ++ (frenderF rest ++ after)))))).length, name⟩)
+      (paramTok_plain _ _)
+      ([.header ⟨(val.text ++ (g2 ++ 93 :: (frenderV body ++ (frenderF rest ++ after)))).length, val.bytes⟩] ++
+        ftapeV body (st.tape ++ paramTok isU ⟨(name ++ 93 :: (g1 ++ (val.text ++ (g2 ++ 93 ::
+          (frenderV body ++ (frenderF rest ++ after)))))).length, name⟩ ::
+          [.header ⟨(val.text ++ (g2 ++ 93 :: (frenderV body ++ (frenderF rest ++ after)))).length, val.bytes⟩]).length
+          (frenderF rest ++ after))
+      .key rfl
+    simp only [List.append_assoc, List.cons_append, List.nil_append] at hctx2
+    rw [frun_F n rest after _ _ hvr rfl hctx2]
+    congr 1
+    refine St.ext' hst.symm rfl rfl ?_
+    simp only [ftapeF, List.length_append, List.length_cons, List.length_nil, len_ftapeV, List.append_assoc,
+      List.cons_append, List.nil_append]
+    simp only [show (2 : Nat) = 1 + 1 from rfl]
+    simp only [Nat.add_assoc, Nat.add_comm, Nat.add_left_comm, Nat.zero_add]
 theorem frun_Vs (n : Nat) : ∀ (vs : FVals) (after : Bytes) (fuel : Nat) (st : St),
     FValidVs vs after → st.state = .arrayValue → Ctx3 st → st.tape ≠ [] →
     run n (fuel + fstepsVs vs) st (frenderVs vs ++ after) =
@@ -1356,6 +1424,12 @@ theorem fstepsF_le : ∀ (fs : FFields) (a : Bytes), FValidF fs a → fstepsF fs
     have h3 := fstepsV_le v _ hvv
     have h4 := fstepsF_le inner _ hvi
     have h5 := fstepsF_le rest _ hvr
+    simp only [fstepsF, frenderF, paramOpen, List.length_append, List.length_cons]; omega
+  | .paramHdr g0 isU name g1 val g2 body rest, a, hv => by
+    simp only [FValidF] at hv
+    obtain ⟨_, _, _, _, _, _, _, _, hvb, hvr⟩ := hv
+    have h3 := fstepsV_le body _ hvb
+    have h4 := fstepsF_le rest _ hvr
     simp only [fstepsF, frenderF, paramOpen, List.length_append, List.length_cons]; omega
 theorem fstepsVs_le : ∀ (vs : FVals) (a : Bytes), FValidVs vs a → fstepsVs vs ≤ 2 * (frenderVs vs).length
   | .nil, _, _ => by simp [fstepsVs]
